@@ -32,7 +32,7 @@ def check(run, t, label):
                 filter_individuals=run.rng.random() < 0.5, filter_nodes=run.rng.random() < 0.8,
                 keep_unary=run.rng.random() < 0.3, keep_input_roots=run.rng.random() < 0.3,
                 reduce_to_site_topology=run.rng.random() < 0.3)
-    if opts["keep_unary"] and run.rng.random() < 0.3:
+    if (opts["keep_unary"] and run.rng.random() < 0.3) or run.rng.random() < 0.15:
         opts["keep_unary"] = False
         opts["keep_unary_in_individuals"] = True
     desc = {"case": label, "samples": samples, "options": opts, "tables": O.brief(t)}
@@ -88,6 +88,44 @@ def check(run, t, label):
                 if m1 != exp:
                     run.violation("MRCA of every sample pair preserved position by position", dict(desc, x=x, pair=(a, b)), m1, exp)
                     return
+    # which ancestors are retained: position by position, the path from every chosen sample to its root in the output
+    # is the input path restricted to the nodes the options require (documented semantics of keep_unary,
+    # keep_unary_in_individuals and keep_input_roots; without them only samples and coalescences remain)
+    if not opts["reduce_to_site_topology"]:
+        chosen = set(samples)
+        ind = t.nodes.individual
+        for x in pts:
+            pm0 = O.parent_map_cols(t, x)
+            pm1 = O.parent_map_cols(out, x)
+            ch0 = O.children_of(pm0, n)
+            below = {}
+
+            def carries(u):
+                """does the subtree of u (at x, in the input) contain a chosen sample?"""
+                if u not in below:
+                    below[u] = (u in chosen) or any(carries(c) for c in ch0.get(u, []))
+                return below[u]
+            for s_ in samples:
+                path = [s_]
+                while path[-1] in pm0:
+                    path.append(pm0[path[-1]])
+                exp_path = [s_]
+                for u in path[1:]:
+                    lineages = sum(1 for c in ch0.get(u, []) if carries(c))
+                    keep = (u in chosen) or lineages >= 2 or opts["keep_unary"] or \
+                        (opts.get("keep_unary_in_individuals") and ind[u] != -1) or \
+                        (opts["keep_input_roots"] and u == path[-1])
+                    if keep:
+                        exp_path.append(u)
+                got_path = [int(node_map[s_])]
+                while got_path[-1] in pm1:
+                    got_path.append(pm1[got_path[-1]])
+                want = [int(node_map[u]) for u in exp_path]
+                if got_path != want:
+                    run.violation("the retained ancestors of every sample are exactly those the options require (samples, "
+                                  "coalescences, unary nodes under keep_unary[_in_individuals], input roots under keep_input_roots)",
+                                  dict(desc, x=x, sample=s_, input_path=path), got_path, want)
+                    return
     # genotypes of the chosen samples at every input site
     pos_out = {float(p): i for i, p in enumerate(out.sites.position)}
     for sid in range(t.sites.num_rows):
@@ -129,7 +167,7 @@ def main():
     N = run.budget(1500, 15000)
     run.scope = "%d seeded small valid tree sequences x random sample lists (incl. non-sample nodes) x option combinations" % N
     for k in range(N):
-        t = O.random_tables(run.rng, sites=True, individuals=(k % 4 == 0), populations=(k % 3 == 0), max_breaks=3)
+        t = O.random_tables(run.rng, sites=True, individuals=(k % 2 == 0), populations=(k % 3 == 0), max_breaks=3)
         t.edges.drop_metadata()       # documented: simplify refuses edges with metadata
         if k % 2 == 0 and t.nodes.num_rows:
             fl = t.nodes.flags.copy()
@@ -150,4 +188,4 @@ def main():
 
 
 if __name__ == "__main__":
-    main()
+    O.run_main(main)
